@@ -25,7 +25,7 @@ Inc(x, B) == LET b == Base(B)  lo == x[2] + 1 IN <<(x[1] + lo \div b) % b, lo % 
 \* x * 9 (wraps)
 Mul9(x, B) == LET b == Base(B)  lo == 9 * x[2] IN <<(9 * x[1] + lo \div b) % b, lo % b>>
 \* Go's integer division truncates toward zero
-GoDiv(a, d) == IF a >= 0 THEN a \div d ELSE -((-a) \div d)
+GoDiv(a, d) == LET q == a \div d IN IF a >= 0 \/ q * d = a THEN q ELSE q + 1      \* (no negation: a may be the minimum)
 \* replication_stream_observer.go: newSize := min(int((idx+1)*9), math.MaxInt32) / 8 with idx an int32:
 \* the product is computed in W bits and widened afterwards, so min() never takes effect
 NewSizeCur(x, B) == GoDiv(Signed(Mul9(Inc(x, B), B), B), 8)
